@@ -34,9 +34,9 @@ META = {
         "technique": "Lean 4 proof (conservation law by induction on kick fuel, invariant over histories, ∀ oracle) + correspondence with recorded oracle",
     },
     "C07": {
-        "text": "Over ℝ, on the same generic definitions the Float instance executes: 2/width ≤ ε; 1−2^(−depth) ≥ confidence with NO numeric hypothesis (the code's literal 0.6931471805599453 ≤ ln 2 is proved from a series); 2b/2^f ≤ ε for the cuckoo fingerprint size; Bloom: m = ⌈−n ln t / c₁⌉ facts, |k − c₂m/n| ≤ ½, exp(−c₁m/n) ≤ t, exact characterisation of when _get_optimized_params succeeds and which error it raises; reload stability for any idempotent narrowing (C07_stable, also for Float). Tie: sizing suite compares the Float instance with the code bit-for-bit (incl. float32 narrowing, round-half-even, error kinds).",
+        "text": "Over ℝ, on the same generic definitions the Float instance executes: 2/width ≤ ε; 1−2^(−depth) ≥ confidence with NO numeric hypothesis (the code's literal 0.6931471805599453 ≤ ln 2 is proved from a series); 2b/2^f ≤ ε for the cuckoo fingerprint size; Bloom: m = ⌈−n ln t / c₁⌉ facts, |k − c₂m/n| ≤ ½, exp(−c₁m/n) ≤ t, exact characterisation of when _get_optimized_params succeeds and which error it raises; the 7% clause itself — (1−e^{−kn/m})^k ≤ 1.07·t for the rounded k — is proved analytically for all n, m, k (C07_allowance, C07_bloom_full); reload stability for any idempotent narrowing (C07_stable, also for Float). Tie: sizing suite compares the Float instance with the code bit-for-bit (incl. float32 narrowing, round-half-even, error kinds).",
         "design_ref": "§4 C07, §7",
-        "note": TIE + " IEEE-754 rounding between ℝ and Float is not verified. The 7% Bloom rounding allowance is the visible Prop C07_BloomRoundingAllowance (C07_bloom_partial is conditional on it).",
+        "note": TIE + " IEEE-754 rounding between ℝ and Float is not verified (that is the only part of C07 outside Lean).",
         "technique": "Lean 4 + Mathlib proof over ℝ (single modules) + bit-for-bit Float correspondence",
     },
     "C09": {
